@@ -363,6 +363,11 @@ def item_values(d, ep, inp, out, x):
     elif ep == "cmp":
         vals.append(dec_value(d, x["a"]))
         vals.append(dec_value(d, x["b"]))
+    elif ep == "sort":
+        for f in (x.get("made", []), out.get("sorted", []), out.get("set", []), out.get("max", [])):
+            for v in f:
+                vals.append(dec_value(d, v))
+        return vals
     elif ep != "default":
         vals.append(dec_value(d, inp))
     if k == "ok" and "v" in out:
@@ -450,6 +455,14 @@ def model_item(d, proj, ep, inp, out, x):
         else:
             o = {f: out[f] for f in ("eq", "ieq", "pcmp", "ipcmp", "cmp", "hash") if f in out}
         return {"ok": True, "v": [proj.model(dec_value(d, x["a"])), proj.model(dec_value(d, x["b"]))]}, o, None
+    if ep == "sort":
+        made = [proj.model(dec_value(d, v)) for v in x.get("made", [])] if x else []
+        if k == "panic":
+            return {"ok": True, "v": [made]}, {"k": "panic", "sorted": [], "set": [], "max": []}, None
+        return ({"ok": True, "v": [made]},
+                {"k": "ok", "sorted": [proj.model(dec_value(d, v)) for v in out["sorted"]],
+                 "set": [proj.model(dec_value(d, v)) for v in out["set"]],
+                 "max": [proj.model(dec_value(d, v)) for v in out["max"]]}, None)
     if ep == "ser":
         return {"ok": True, "v": [proj.model(dec_value(d, x["v"]))]}, {"k": k, "same": bool(out.get("same")), "ref_ok": bool(out.get("ref_ok"))}, None
     return {"ok": True, "v": [proj.model(dec_value(d, inp))]}, model_out(d, proj, out), env
@@ -479,7 +492,7 @@ def project(decls_by_id, obs_path):
                 mi, mo, env = it
                 ins.append(mi)
                 outs.append(mo)
-                if d["fam"] == "string" and b["ep"] not in ("views", "cmp", "ser"):
+                if d["fam"] == "string" and b["ep"] not in ("views", "cmp", "ser", "sort"):
                     envs.append(env if env is not None else [])
                 raw.append((inp, out, x))
             if not ins:
